@@ -385,7 +385,7 @@ static void decode_pointer_inplace(unsigned char *string)
             }
             else if (string[1] == '1')
             {
-                decoded_string[1] = '/';
+                decoded_string[0] = '/';
             }
             else
             {
@@ -394,6 +394,11 @@ static void decode_pointer_inplace(unsigned char *string)
             }
 
             string++;
+        }
+        else
+        {
+            /* every other byte moves down to its decoded position */
+            decoded_string[0] = string[0];
         }
     }
 
